@@ -63,6 +63,14 @@ func optsFromName(name string) api.TransformOptions {
 			case "esnext":
 				o.Target = api.ESNext
 			}
+		case strings.HasPrefix(f, "define:"):
+			kv := strings.SplitN(f[7:], "=", 2)
+			if o.Define == nil {
+				o.Define = map[string]string{}
+			}
+			if len(kv) == 2 {
+				o.Define[kv[0]] = kv[1]
+			}
 		case strings.HasPrefix(f, "sup:"):
 			kv := strings.SplitN(f[4:], "=", 2)
 			if o.Supported == nil {
